@@ -1,20 +1,22 @@
+\* generated from checks/C07.py (the check passes the same text as cfg_text); kept for running TLC by hand
+\* model of the pinned tree: Refines is expected to be VIOLATED (stale slot shares the nested backing array)
 SPECIFICATION MCSpec
 CONSTANTS
   Vars = {"x", "y"}
-  Ops = {"append", "touch", "removeif", "ensure", "copy", "moveappend", "ecopy", "emove", "fromraw", "markro"}
-  SMin = 0
-  SMax = 1
+  Ops = {"append", "touch", "removeif", "ensure", "copy", "moveappend", "ecopy", "emove", "markro"}
+  SMin = 1
+  SMax = 2
   Preds = {"first", "last", "evens", "all"}
   Keys = {}
   Caps = {4}
-  RawLens = {0, 2}
-  RawShape = 1
+  RawLens = {}
+  RawShape = 0
   MaxLen = 4
   MaxKids = 2
   ZeroTouch = TRUE
   Ptr = FALSE
   FixedSlots = FALSE
-  FixedUnset = FALSE
+  FixedUnset = TRUE
   MaxSteps = 3
   InitLens = {0, 2, 3}
 INVARIANT Refines
